@@ -214,10 +214,13 @@ def build(sc, ctx):
     N, K = sc["N"], sc["K"]
     names = ["C%d" % (k + 1) for k in range(K)]
     SD = make_dists(ciw, sc, ctx)
+    # class-keyed dictionaries are filled in REVERSED class order: ciw must not depend on the insertion
+    # order of the user's dictionaries (it sorts class names itself)
+    korder = list(range(K))[::-1] if sc.get("dictorder", "reversed") == "reversed" else list(range(K))
 
     def dists(key, kind):
         out = {}
-        for k in range(K):
+        for k in korder:
             row = []
             for n in range(N):
                 al = sc[key][n][k]
@@ -260,7 +263,7 @@ def build(sc, ctx):
     kw["queue_capacities"] = [float("inf") if nd["qcap"] >= INF else nd["qcap"] for nd in sc["nodes"]]
     if sc["syscap"] < INF:
         kw["system_capacity"] = sc["syscap"]
-    pmap = {names[k]: sc["prio"][k] for k in range(K)}
+    pmap = {names[k]: sc["prio"][k] for k in korder}
     pps = [{0: False, 1: "resume", 2: "restart", 3: "resample", 4: "reroute"}[nd["pp"]] for nd in sc["nodes"]]
     if any(pps):
         kw["priority_classes"] = (pmap, pps)
@@ -269,15 +272,15 @@ def build(sc, ctx):
     if any(nd["ccm"] for nd in sc["nodes"]):
         ccms = []
         for nd in sc["nodes"]:
-            ccms.append({names[a]: {names[b]: nd["ccm"][a][b] / DEN for b in range(K)} for a in range(K)})
+            ccms.append({names[a]: {names[b]: nd["ccm"][a][b] / DEN for b in korder} for a in korder})
         kw["class_change_matrices"] = ccms
     if any(sc["cct"][a][b] for a in range(K) for b in range(K)):
         kw["class_change_time_distributions"] = {
             names[a]: {names[b]: (SD("cct", a + 1, b + 1, sc["cct"][a][b]) if sc["cct"][a][b] else None)
-                       for b in range(K)} for a in range(K)}
+                       for b in range(K)} for a in korder}
     if any(nd["bk"][k] for nd in sc["nodes"] for k in range(K)):
         bf = {}
-        for k in range(K):
+        for k in korder:
             row = []
             for n, nd in enumerate(sc["nodes"]):
                 tab = nd["bk"][k]
@@ -300,7 +303,7 @@ def build(sc, ctx):
         kw["server_priority_functions"] = [SPF[nd["spf"]] for nd in sc["nodes"]]
     if any(nd["kind"] == "ps" for nd in sc["nodes"]):
         kw["ps_thresholds"] = [Fraction(nd["psR"]) for nd in sc["nodes"]]
-    kw["routing"] = {names[k]: make_router(ciw, sc, ctx, sc["route"][k], k) for k in range(K)}
+    kw["routing"] = {names[k]: make_router(ciw, sc, ctx, sc["route"][k], k) for k in korder}
     return ciw.create_network(**kw), names
 
 
